@@ -53,6 +53,13 @@ def Kind.name : Kind → String
   | .tx => "tx" | .consensus => "consensus" | .notfound => "notfound" | .disconnect => "disconnect"
   | .getblocks => "getblocks"
 
+/-- the Go message type of each kind (`MakeEmptyMessage`) -/
+def Kind.goType : Kind → String
+  | .ping => "Ping" | .version => "Version" | .verack => "VerACK" | .addr => "Addr" | .getaddr => "AddrReq" | .pong => "Pong"
+  | .getheaders => "HeadersReq" | .headers => "BlkHeader" | .inv => "Inv" | .getdata => "DataReq" | .block => "Block"
+  | .tx => "Trn" | .consensus => "Consensus" | .notfound => "NotFound" | .disconnect => "Disconnected"
+  | .getblocks => "BlocksReq"
+
 /-! ## payload schemas -/
 
 def pingTy : Ty := lf .u64
